@@ -92,6 +92,11 @@ CHECKS = {
     "Correspondence (teacher-forced problem functions) and oracle: independent roll-out, complex-step gradient, dense KKT solve, both factorisations, all 2^nu masks.",
     "4/C12", TB_REALS + CORR + "chain rule and Eigen LDLT/LU are parameters (lsolve hypothesis); Riccati minimiser statement not proved (needs positive-definiteness bookkeeping).",
     "Coq proofs (layout, index sets, adjoint, Riccati KKT) + correspondence + independent numeric oracle"),
+ "C13": C("proof",
+    "14 theorems: on the status chain GENERATED from PANOC-OCP's private copy Converged <=> eps <= tolerance (and the copy equals the shared chain); the returned input sequence is u_hat = u + p with p the projected-gradient step, hence inside the input box componentwise; the criterion switch evaluates exactly the six supported criteria and each equals its documented formula at (u_k, u_hat_k, gamma_k); Converged certifies that residual <= tolerance; the gradient fed to it is the derivative of the forward cost (C12's adjoint theorem); multiplier / constraint-error relations per row as for the general solvers. "
+    "Correspondence: teacher-forced on every progress record of the real PANOCOCPSolver (prox step, envelope, QUB, line search, criterion incl. the throwing case, status, free-index count, write_solution); oracle: residual recomputed from an independent roll-out with complex-step gradient, box membership, u = u_hat, multiplier relations, status / count clauses, GN always / periodically / never.",
+    "4/C13", TB_REALS + CORR + "GN and L-BFGS directions are oracles (nothing about them is needed for what Converged certifies); fmax/fmin modelled by cmax/cmin (equal without NaN); chain rule assumed; interpretation: the criteria are defined on the pair (u_k, u_hat_k), the returned point is u_hat_k (measured: residual at u_hat_k never exceeded tol).",
+    "Coq proofs on generated chain + OCP kernels + record-level correspondence + independent roll-out oracle"),
  "C14": C("proof",
     "13 axiom-free theorems over a transcription of all 9 SparsityConverter specialisations: a successful conversion preserves the dense matrix entry by entry for all shapes (incl. 0xN), patterns and value vectors; dims, symmetry mirroring, first_index and order requests honoured, order tag truthful, invalid inputs rejected. Correspondence over all pairs x index types x requests; oracle: dense reconstruction.",
     "4/C14", "Coq 8.16.1 kernel, no axioms (closed under the global context); " + CORR + "index widths are tags (overflow not modelled); COO->CSC and CSC sorting throw in this build (macro off) and are modelled as such; duplicates excluded.",
